@@ -113,7 +113,7 @@ excluded class; the socket is on `a` -/
 theorem mem_hostIfaceUnits {cfg : Config} {ifs : List Iface} {u : GUnit} (hq : cfg.quirks = []) :
     u ∈ hostIfaceUnits cfg ifs ↔
       ∃ a ifc m, (a, ifc) ∈ localAddrs cfg (configured cfg.netTypes) ifs ∧ m ∈ hostMapped cfg a ifc ∧
-        u.bind = a ∧ u.mapped = m ∧ u.url = 0 ∧ u.n = 1 ∧ (m.cls.is6 = true → m.cls.supported6 = true) ∧
+        u.bind = a ∧ u.mapped = m ∧ u.url = 0 ∧ u.n = 1 ∧ u.ifc = ifc ∧ (m.cls.is6 = true → m.cls.supported6 = true) ∧
         ((u.kind = .hostTcp ∧ u.net = NetType.ofTransport true m.cls.is6 ∧
             (configured cfg.netTypes).contains u.net = true ∧ tcpMuxAccepts cfg a = true)
          ∨ (u.kind = .hostUdp ∧ u.net = NetType.ofTransport false m.cls.is6 ∧
@@ -131,7 +131,7 @@ theorem mem_hostIfaceUnits {cfg : Config} {ifs : List Iface} {u : GUnit} (hq : c
         simp only [Bool.and_eq_true, hostNetEnabled, Bool.or_eq_true, Bool.not_eq_true'] at hc
         simp only [List.mem_singleton] at h
         subst h
-        refine ⟨a, n, m, hp, hm, rfl, rfl, rfl, rfl, ?_, Or.inl ⟨rfl, rfl, hc.1.1.2, hc.2⟩⟩
+        refine ⟨a, n, m, hp, hm, rfl, rfl, rfl, rfl, rfl, ?_, Or.inl ⟨rfl, rfl, hc.1.1.2, hc.2⟩⟩
         intro h6; rcases hc.1.2 with h | h
         · simp [h6] at h
         · exact h
@@ -141,16 +141,16 @@ theorem mem_hostIfaceUnits {cfg : Config} {ifs : List Iface} {u : GUnit} (hq : c
         simp only [Bool.and_eq_true, hostNetEnabled, Option.isNone_iff_eq_none, Bool.or_eq_true, Bool.not_eq_true'] at hc
         simp only [List.mem_singleton] at h
         subst h
-        refine ⟨a, n, m, hp, hm, rfl, rfl, rfl, rfl, ?_, Or.inr ⟨rfl, rfl, hc.1.2, hc.1.1.2⟩⟩
+        refine ⟨a, n, m, hp, hm, rfl, rfl, rfl, rfl, rfl, ?_, Or.inr ⟨rfl, rfl, hc.1.2, hc.1.1.2⟩⟩
         intro h6; rcases hc.2 with h | h
         · simp [h6] at h
         · exact h
       · simp at h
-  · rintro ⟨a, ifc, m, hp, hm, hb, hmp, hu0, hn1, hsup, h⟩
+  · rintro ⟨a, ifc, m, hp, hm, hb, hmp, hu0, hn1, hifc, hsup, h⟩
     refine ⟨(a, ifc), hp, m, hm, ?_⟩
-    obtain ⟨kind, net, bind, url, n, mapped⟩ := u
-    simp only at hb hmp hu0 hn1 h
-    subst hb hmp hu0 hn1
+    obtain ⟨kind, net, bind, url, n, mapped, uifc⟩ := u
+    simp only at hb hmp hu0 hn1 hifc h
+    subst hb hmp hu0 hn1 hifc
     have hs : (!mapped.cls.is6 || mapped.cls.supported6) = true := by
       cases h6 : mapped.cls.is6
       · rfl
